@@ -54,7 +54,10 @@ RULE = ("keypair: a random history and an adversarial variant (adjacent messages
         "interleaved; conc: 2-4 concurrent single-turn requests with per-request temperature, start delay, pause and LLM latency "
         "(some LLM calls fail); ctx: 2-5 single-turn requests, some with options, as a random program of one task (sequential awaits and nested spawn groups); "
         "serve/e2e turns carry options with probability 0.15/0.3 and run inline in one driver task / in tasks spawned from it; thorough additionally enumerates every interleaving of 3 managers x (enter, call, exit) (1680) and of "
-        "the turns of two conversations for six adversarial conversation shapes. non-trivial = at least two conversations/managers/requests and (for serve/e2e) at least one "
+        "the turns of two conversations for six adversarial conversation shapes. events cases carry an explicit state object with probability 0.25 (the implicit cache must not be consulted); "
+        "params managers are parameterless with probability 0.12 and belong to tasks (interleaved: one task each; nested/sequential: one task or one each) - on a tree with the repaired LLMParams "
+        "(llm_for_call) every task runs in its own context, an LLM call is an in-flight marker section + llm_for_call + a read deferred past the next steps of other tasks; conc: the provider re-reads the "
+        "temperature at the end of the call and the observed label sequence (sections, reads) is replayed on the Lean transition system. non-trivial = at least two conversations/managers/requests and (for serve/e2e) at least one "
         "multi-message request, (keypair) the two histories differ; distinct = distinct case JSON.")
 TRUSTED_BASE = [
     "correspondence harness harness/props/C15.py + Lean driver Drive/C15.lean (JSON codecs; the turn function travels as a table observed from the stub runtime)",
@@ -1381,6 +1384,13 @@ def model_requests(case, obs):
     if k == "conc" and obs.get("pmode") == "repaired":
         tr = conc_trace(obs)
         return [] if tr is None else [dict(tr["req"], m="C15.paramsR")]
+    if k == "conc":
+        # the code as it is: the observed label sequence through the mirrored __enter__/__exit__ on one shared object
+        tr = conc_trace(obs)
+        if tr is None:
+            return []
+        r = tr["req"]
+        return [{"m": "C15.params", "attrs": r["cfg"], "kw": None, "managers": r["alts"], "sched": r["trace"], "universe": r["universe"]}]
     if k == "params" and obs.get("pmode") == "repaired":
         # the abstract transition system of the repaired LLMParams (every parameter exists on the object)
         if "exc" in obs or not all_present(case):
@@ -1474,6 +1484,21 @@ def compare(case, obs, mouts):
             return f"observed schedule {tr['req']['trace']}: parameters read by the LLM calls {tr['calls']}, transition system {mcalls}"
         if m["open"] or m["store"] != tr["req"]["cfg"]:
             return f"observed schedule: transition system ends with open sections {m['open']} / object {m['store']}"
+        return None
+    if k == "conc":
+        if not mouts:
+            return None
+        tr, m = conc_trace(obs), mouts[0]
+        # every provider read, in order: the values of the parameters the reading section set (what `Params.cstep` logs)
+        exp = []
+        for (sid, act), vals in zip([x for x in tr["req"]["trace"] if x[1] == "call"], tr["calls"]):
+            d = dict((i, v) for i, v in vals)
+            exp.append([sid, [[n, d[n]] for n, _ in tr["req"]["alts"][sid]]])
+        if m["calls"] != exp:
+            return f"observed schedule {tr['req']['trace']}: parameters read by the LLM calls {exp}, model of LLMParams on the same schedule {m['calls']}"
+        fin = [[0, _pint("temperature", obs["final_temp"])]]
+        if [x for x in m["attr"] if x[0] == 0] != fin:
+            return f"observed schedule: temperature left on the object {fin}, model {m['attr']}"
         return None
     if k == "params" and obs.get("pmode") == "repaired":
         if not mouts:
